@@ -919,6 +919,11 @@ def run_truncate(ctx, case, refold_queue=None):
     if not (0 <= ret <= 1 + 1e-12):
         ctx.fail("oracle", "c08:truncate:range", f"returned discarded weight {ret!r} outside [0,1]", **ok)
     # ---- normalisation / factor
+    if not prepared and not n1 > 1e-9 * n0:
+        # a truncation outside the documented canonical form may project the state to zero (e.g. D_total=1 keeps, bond by
+        # bond, charge sectors that do not connect); the property is silent about zero states (they cannot be normalised)
+        ctx.count("truncate:unprepared-state-annihilated")
+        return
     if nm:
         if not (psi.factor == 1) or abs(n1 - 1) > TOL:
             ctx.fail("oracle", "c08:not-normalised", f"truncate_(normalize=True): factor={psi.factor!r}, dense norm {n1!r}", **ok)
